@@ -6,3 +6,6 @@ open MdVerif.CodeX
 #print axioms C03X_block_extensions_inert
 #print axioms C03X_tab0_counterexample
 #print axioms C03X_admNonAscii_excluded
+#print axioms C03X_span_top
+#print axioms C03X_span_extensions_inert
+#print axioms C03X_span_attr_list_boundary
